@@ -67,7 +67,6 @@ type policy struct {
 	cpuAllocator cpuallocator.CPUAllocator // CPU allocator used by the policy
 	memAllocator *libmem.Allocator
 	metrics      *TopologyAwareMetrics
-	rebuild      bool // rebuild allocations even if the configuration is unchanged
 }
 
 var opt = &cfgapi.Config{}
@@ -500,20 +499,26 @@ func (p *policy) Reconfigure(newCfg interface{}) error {
 
 	log.Infof("updated configuration: %+v", cfg)
 
-	if !p.rebuild && reflect.DeepEqual(cfg, p.cfg) {
+	if reflect.DeepEqual(cfg, p.cfg) {
 		log.Info("no configuration changes")
 		return nil
 	}
 
 	savedPolicy := *p
 	allocations := savedPolicy.allocations.clone()
+	savedMemory := p.memAllocator.Clone()
+	savedPinning := p.savePinning()
 
-	// restore puts back the saved policy and the package-level options.
-	// If existing allocations may have been touched, the next (reverting)
-	// reconfiguration must rebuild them even for an unchanged configuration.
-	restore := func(rebuild bool) {
+	// restore puts back the saved policy and the package-level options. If
+	// existing allocations have been touched it also puts back the memory
+	// allocator and the pinning of the containers as they were, so that a
+	// rejected configuration leaves nothing behind.
+	restore := func(touched bool) {
 		*p = savedPolicy
-		p.rebuild = rebuild
+		if touched {
+			p.memAllocator = savedMemory
+			p.restorePinning(savedPinning)
+		}
 		opt = p.cfg
 		defaultPrio = p.cfg.DefaultCPUPriority.Value()
 	}
@@ -544,12 +549,48 @@ func (p *policy) Reconfigure(newCfg interface{}) error {
 		restore(true)
 		return policyError("failed to reconfigure: %v", err)
 	}
-	p.rebuild = false
 
 	p.root.Dump("<post-config>")
 	p.checkAllocations("  <post-config>")
 
 	return nil
+}
+
+// pinning is what the policy has told a container to run on.
+type pinning struct {
+	cpus   string
+	mems   string
+	shares int64
+}
+
+// savePinning records the current pinning of all containers with a grant.
+func (p *policy) savePinning() map[string]pinning {
+	saved := make(map[string]pinning, len(p.allocations.grants))
+	for id, g := range p.allocations.grants {
+		c := g.GetContainer()
+		saved[id] = pinning{cpus: c.GetCpusetCpus(), mems: c.GetCpusetMems(), shares: c.GetCPUShares()}
+	}
+	return saved
+}
+
+// restorePinning puts back the recorded pinning of containers.
+func (p *policy) restorePinning(saved map[string]pinning) {
+	for id, g := range p.allocations.grants {
+		old, ok := saved[id]
+		if !ok {
+			continue
+		}
+		c := g.GetContainer()
+		if c.GetCpusetCpus() != old.cpus {
+			c.SetCpusetCpus(old.cpus)
+		}
+		if c.GetCpusetMems() != old.mems {
+			c.SetCpusetMems(old.mems)
+		}
+		if c.GetCPUShares() != old.shares {
+			c.SetCPUShares(old.shares)
+		}
+	}
 }
 
 // Initialize or reinitialize the policy.
